@@ -277,7 +277,7 @@ func TestC14_MultiFault(t *testing.T) {
 		case 2:
 			cs.Src = "{{ 1 }}"
 			cs.Data = &spec.Data{}
-			kinds := rapid.SliceOfNDistinct(rapid.SampledFrom([]string{spec.TChan, spec.TFunc, spec.TComplex, spec.TArray}), 2, 4, rapid.ID[string]).Draw(rt, "unsupKinds")
+			kinds := rapid.SliceOfNDistinct(rapid.SampledFrom([]string{spec.TChan, spec.TFunc, spec.TComplex, spec.TArray, spec.TIntMap, spec.TBoolMap}), 2, 4, rapid.ID[string]).Draw(rt, "unsupKinds")
 			for i, k := range kinds {
 				cs.Data.Add(manyKeys[i], spec.Unsupported(k))
 			}
